@@ -114,6 +114,19 @@ Section ExtLemmas.
     C07.SrcRun.call_body (fun x => x) sm3_lens (("tok", tok) :: ("eos", e) :: ("dim", d) :: C07.SrcRun.globals07) st.
   Proof. reflexivity. Qed.
 
+  Lemma ext3_dtype_i x st : ext "$attr.dtype" [enc_i x] [] st = Ok long_token st.
+  Proof. bridge. apply ext_dtype_i. Qed.
+  Lemma ext3_dtype_x x st : ext "$attr.dtype" [enc_x x] [] st = Ok float_token st.
+  Proof. bridge. apply ext_dtype_x. Qed.
+  Lemma ext3_to_b_float x st : ext "$method.to" [enc_b x; float_token] [] st = Ok (enc_x (bool_to_float x)) st.
+  Proof. bridge. apply ext_to_b_float. Qed.
+  Lemma ext3_to_i_float x st : ext "$method.to" [enc_i x; float_token] [] st = Ok (enc_x (long_to_float x)) st.
+  Proof. bridge. apply ext_to_i_float. Qed.
+  Lemma ext3_eq_m x c st : ext "$method.eq" [enc_i x; VInt c] [] st = Ok (enc_b (eq_s x c)) st.
+  Proof. bridge. apply ext_eq_m. Qed.
+  Lemma ext3_gt_m x c st : ext "$method.gt" [enc_i x; VInt c] [] st = Ok (enc_b (cmp_scalar Z.gtb x c)) st.
+  Proof. bridge. apply ext_gt_m. Qed.
+
   (* shape-only operations of ext01 on boolean / long tensors (ext01 handles every element type through map01) *)
   Lemma ext3_unsqueeze_b x d st : ext "$method.unsqueeze" [enc_b x; VInt d] [] st = ret01 "unsqueeze" (option_map AB (unsqueeze x d)) st.
   Proof. bridge. unfold ext01, ext01_ops. cbn. now rewrite dec01_enc_b. Qed.
@@ -262,6 +275,7 @@ Create HintDb c03 discriminated.
   ext3_cmp_lt ext3_cmp_ge ext3_cmp_eq ext3_cmp_ne ext3_float_b ext3_getitem_int_i ext3_mul_q_x ext3_mul_x_q ext3_add_x ext3_sub_x
   ext3_getitem_slice_x ext3_setitem_slice_x ext3_torch_min ext3_min_dim ext3_where
   ext3_dim_i ext3_t_i ext3_empty ext3_detach_i ext3_shape_i ext3_device_i ext3_add_i_int ext3_sub_i
+  ext3_dtype_i ext3_dtype_x ext3_to_b_float ext3_to_i_float ext3_eq_m ext3_gt_m
   ext3_any ext3_to_b_long ext3_full ext3_arange_f ext3_float_inf ext3_full_like_inf ext3_triu
   ext3_unsqueeze_x ext3_unsqueeze_i ext3_expand_x
   ext3_unsqueeze_b ext3_expand_i ext3_zeros ext3_arange_i ext3_cmp_gt_is ext3_cmp_gt_xi ext3_cmp_eq_xx ext3_cmp_lt_ii ext3_and
@@ -276,7 +290,7 @@ Ltac norm3 :=
     gt_xi, eq_xx, and_bb, masked_fill, zip_same; cbn [shp dat];
   rewrite ?nats_eqb_refl, ?map_map, ?map_tab2, ?zipw_tab2;
   rewrite ?broadcast_mat_row, ?broadcast_same2, ?broadcast_same1, ?broadcast_3_mat, ?broadcast_col_row, ?broadcast_col1_row,
-    ?broadcast_mat_row1,
+    ?broadcast_mat_row1, ?broadcast_3_plane,
     ?where_row_mat, ?where_same1, ?slice0_init, ?slice0_tail, ?set_slice0_tail,
     ?unsqueeze_1_0, ?unsqueeze_1_1, ?unsqueeze_2_m1, ?squeeze_2_0, ?unsqueeze_2_0;
   cbn [option_map ret01 enc01].
